@@ -119,6 +119,9 @@ func (c *Case) effectiveJobs() []Job {
 
 // Run executes the case once against the real scheduler.
 func Run(c *Case, m Mode) *Hist {
+	if c.Procs > 0 {
+		defer runtime.GOMAXPROCS(runtime.GOMAXPROCS(c.Procs))
+	}
 	jobs := c.effectiveJobs()
 	J := len(jobs)
 	h := &Hist{
